@@ -16,8 +16,24 @@ def toolOf : String → Option Tool
   | "sigkill" => some .sigkill | "hang_ignore_term" => some .hangIgnoreTerm
   | "missing" => some .missing | "isdir" => some .isdir | "nulbyte" => some .nulbyte | _ => none
 
-def seqtypeOf : String → Option String
-  | "prot" => some "protein" | "nuc" => some "nucleotide" | "generic" => some "protein" | _ => none
+/-- `prot`, `nuc`, `generic` (custom alphabet of 3 symbols), `generic<K>` (of K symbols): (seqtype reported, alphabet size if custom). -/
+def seqkindOf (s : String) : Option (String × Option Nat) :=
+  if s = "prot" then some ("protein", none)
+  else if s = "nuc" then some ("nucleotide", none)
+  else if s = "generic" then some ("protein", some 3)
+  else if s.startsWith "generic" then (s.drop 7).toNat?.map fun k => ("protein", some k)
+  else none
+
+/-- What `__init__` raises, if anything: MUSCLE asks the binary for its version first (launch errors); exotic sequence
+types need a wrapper with custom protein matrices (MUSCLE 3, MAFFT) and an alphabet no larger than the amino-acid one. -/
+def constructErr (w : Wrapper) (t : Tool) (custom : Option Nat) : Option Err :=
+  if (w = .muscle3 ∨ w = .muscle5) ∧ launchFails t then some (errLaunch t)
+  else match custom with
+    | none => none
+    | some k =>
+      if w = .clustalo ∨ w = .muscle5 then some .typeError
+      else if w = .muscle3 ∨ w = .mafft then (match mapSequence k [] with | .error e => some e | .ok _ => none)
+      else none
 
 def showObs (s : St) : String :=
   s!"st={s.state.name} cwd={if s.cwdChanged then "changed" else "same"} files={s.files} child={s.child.name} cl={s.cleanups}"
@@ -69,14 +85,21 @@ def webCallOf : List String → Option Web.Call
 def step (st : DSt) (line : String) : DSt × String :=
   match words line with
   | ["new", w, t, n, k] =>
-    match wrapperOf w, toolOf t, n.toNat?, seqtypeOf k with
-    | some w, some t, some n, some k =>
-      -- MuscleApp / Muscle5App call get_version(bin_path) before anything else: a missing binary fails construction
-      if (w = .muscle3 ∨ w = .muscle5) ∧ launchFails t then (.failed, "ERR:" ++ (errLaunch t).toString ++ " | " ++ noObs)
-      else
-        let s := init w t n k
+    match wrapperOf w, toolOf t, n.toNat?, seqkindOf k with
+    | some w, some t, some n, some (seqtype, custom) =>
+      match constructErr w t custom with
+      | some e => (.failed, "ERR:" ++ e.toString ++ " | " ++ noObs)
+      | none =>
+        let s := init w t n seqtype
         (.app s, "ok | " ++ showObs s)
     | _, _, _, _ => (st, "bad-op")
+  | ["mapseq", k, codes] =>
+    match k.toNat?, parseNats codes with
+    | some k, some codes =>
+      match mapSequence k codes with
+      | .ok ls => (st, "ok ProteinSequence:" ++ (if ls.isEmpty then "_" else String.ofList ls))
+      | .error e => (st, "ERR:" ++ e.toString)
+    | _, _ => (st, "bad-op")
   | ["newweb", obey, k, put] =>
     match (if obey = "obey" then some true else if obey = "free" then some false else none), k.toNat?,
           (if put = "ok" then some false else if put = "toolarge" then some true else none) with
